@@ -212,7 +212,7 @@ Spec == Init /\ [][Next]_vars
 Key == <<focus, par.stopAt, hist>>
 MFail(name) == PrintT(<<"MODELFAIL", name, Key>>)
 Live == pc \in {"iter", "bend"} /\ it > 0
-Best(i) == MaxOf({x[1] : x \in seen[i]})
+Best(i) == IF seen[i] = {} THEN NegInf ELSE MaxOf({x[1] : x \in seen[i]})
 \* C15: the incumbent reward of every row is the maximum over ALL rollouts of its instance so far ...
 BestIsMax == (Live /\ ~\A b \in 1..Bk : maxRew[b] = Best(Inst(bi, b))) => MFail("BestIsMax")
 \* ... the incumbent solution is a rollout of THAT instance that achieved it (so re-scoring it gives the stored reward) ...
